@@ -24,3 +24,16 @@ Theorem C07_renaming_preserves_resolution : forall rho phi,
              map (fun r => t_range (r_tok r)) (refs s') = map (fun r => phi (t_range (r_tok r))) (refs s).
 Proof. exact renaming_preserves_resolution. Qed.
 Print Assumptions C07_renaming_preserves_resolution.
+
+(** "re-bound" in Lua's sense, for every program: every reference the scope analysis records for an
+    identifier that Lua binds to a local variable, parameter, loop variable or `self` is resolved - which is
+    exactly what the three lints' gate tests.  (Scope/GAgreement.v, the simulation behind C01.) *)
+From Selene Require Import Scope.Spec Scope.GFragment Scope.GAgreement.
+Theorem C07_rebound_is_resolved : forall chunk s,
+  gok_block chunk = true ->
+  NoDup (map (fun o => t_range (o_tok o)) (occs chunk)) ->
+  scope_manager chunk = Some s ->
+  forall o d r, In o (occs chunk) -> o_bind o = OLocal d -> In r (refs s) -> t_range (r_tok r) = t_range (o_tok o) ->
+  r_resolved r <> None.
+Proof. exact local_references_resolved. Qed.
+Print Assumptions C07_rebound_is_resolved.
